@@ -231,7 +231,7 @@ PROPS = {
     },
     'C18': {
         'id': 'C18', 'area': 'arg',
-        'theorems': ['Props.C18_roundtrip', 'Props.C18_prefix', 'Props.C18_text', 'Props.C18_consts'],
+        'theorems': ['Props.C18_roundtrip', 'Props.C18_prefix', 'Props.C18_text', 'Props.C18_decoded_supported', 'Props.C18_corruption_keeps_prefix', 'Props.C18_consts'],
         'n_quick': 5000, 'n_thorough': 200000,
     },
     'C08': {
